@@ -4,43 +4,63 @@ import QmiModel.Lemmas.C05
 # C05 — only methods declared RPC-callable can be invoked through messages
 
 Generic theorems over *every* class table `C : RpcClass` and *every* name `n : Name` (all method-name strings,
-via the injective encoding `encodeName`).  The per-class obligations `wf_<Class> : WellFormed gen_<Class>` for the
+via the injective encoding `encodeName`), for the dispatch of the repaired tree (static lookup, commit b296ced).  The per-class obligations `wf_<Class> : WellFormed gen_<Class>` for the
 classes shipped with QMI are generated into `Gen/RpcClassesWf.lean` from the live classes on every run.
 -/
 namespace QmiModel.RpcClass
 
+/-! ## what holds for *every* class, well-formed or not -/
+
+/-- **A rejected request runs nothing.**  For every class and every name: if the request is not dispatched to a
+method, no code of the object runs (no getter, no `__getattr__`) and the reply is the unknown-RPC error. -/
+theorem rejected_runs_nothing (C : RpcClass) (n : Name) (h : ¬ invokable C n = true) :
+    effects C n = [] ∧ reply C n = .unknownRpc := by
+  unfold invokable at h
+  unfold effects reply
+  cases hg : instLookup C n with
+  | absent => exact ⟨rfl, rfl⟩
+  | value m =>
+    cases m with
+    | false => exact ⟨rfl, rfl⟩
+    | true => rw [hg] at h; exact absurd rfl h
+
+/-- the only code of the object a request can start is the call of the method it names -/
+theorem effects_only_call (C : RpcClass) (n : Name) : effects C n = [] ∨ effects C n = [.called n] := by
+  unfold effects
+  cases instLookup C n with
+  | absent => exact Or.inl rfl
+  | value m => cases m <;> simp
+
+/-- **Advertised = invokable**, for every class, at every name that is not shadowed by an instance attribute:
+dispatch and descriptor apply the same test to the same statically resolved member. -/
+theorem invokable_iff_advertised_of_unshadowed (C : RpcClass) (n : Name) (hl : lookup C.inst n = none) :
+    invokable C n = true ↔ n ∈ advertised C := by
+  rw [mem_advertised_iff]
+  unfold invokable
+  rcases instLookup_of_unshadowed C n hl with ⟨h1, h2⟩ | h1
+  · rw [h1, h2]
+  · rw [h1]; cases isAdvertised C n <;> simp
+
+example : ∃ C : RpcClass, ∃ n, lookup C.inst n = none ∧ invokable C n = true ∧ C.inst ≠ [] :=
+  ⟨{ mro := [[(1, .func true true)]], inst := [(2, false)] }, 1, rfl, rfl, by decide⟩
+
 /-! ## names outside the member tables — i.e. all the infinitely many other strings -/
 
 /-- A name that is neither a class member along the MRO nor an instance attribute is rejected with the unknown-RPC
-error, runs nothing and is not advertised (provided no class defines a `__getattr__` hook). -/
-theorem absent_name_rejected (C : RpcClass) (hh : C.getattrHook = false) (n : Name) (hn : n ∉ allNames C) :
+error, runs nothing and is not advertised — whether or not some class defines `__getattr__`. -/
+theorem absent_name_rejected (C : RpcClass) (n : Name) (hn : n ∉ allNames C) :
     invokable C n = false ∧ n ∉ advertised C ∧ effects C n = [] ∧ reply C n = .unknownRpc := by
   have h := instLookup_of_unknown C n hn
-  rw [hh] at h
-  simp only [Bool.false_eq_true, if_false] at h
   refine ⟨?_, ?_, ?_, ?_⟩
   · simp only [invokable, h]
   · rw [mem_advertised_iff, isAdvertised_of_unknown C n hn]; exact Bool.false_ne_true
   · simp only [effects, h]
   · simp only [reply, h]
 
-example : ∃ C : RpcClass, C.getattrHook = false ∧ (7 : Name) ∉ allNames C ∧ allNames C ≠ [] :=
-  ⟨{ mro := [[(1, .func true true)]] }, rfl, by decide, by decide⟩
+example : ∃ C : RpcClass, (7 : Name) ∉ allNames C ∧ allNames C ≠ [] :=
+  ⟨{ mro := [[(1, .func true true)]] }, by decide, by decide⟩
 
-/-! ## the property at a single name, and the main theorems -/
-
-/-- **Partial form** (for classes with listed exceptions): outside the names in `bad` the property holds at every
-name.  Missing hypothesis for the full statement: `bad = []`. -/
-theorem dispatch_sound_partial (C : RpcClass) (bad : List Name) (h : WellFormedExcept C bad) (n : Name)
-    (hb : n ∉ bad) : PropertyAt C n := by
-  by_cases hn : n ∈ allNames C
-  · exact propertyAt_of_nameOk C n (nameOk_of_wfExcept C bad h n hn hb)
-  · have hh := hook_of_wfExcept C bad h
-    obtain ⟨h1, h2, h3, h4⟩ := absent_name_rejected C hh n hn
-    refine ⟨?_, ?_, ?_⟩
-    · rw [h1]; exact ⟨fun e => (by cases e), fun e => absurd e h2⟩
-    · rw [h1]; intro e; cases e
-    · intro _; exact ⟨h3, h4⟩
+/-! ## the main theorems -/
 
 /-- **C05, main theorem.**  For a well-formed class: a name is invokable through a method request **iff** it is
 in the advertised method list, and a name that is not invokable runs nothing and gets the unknown-RPC error —
@@ -48,33 +68,32 @@ for all names, including the infinitely many that occur in no table. -/
 theorem dispatch_sound (C : RpcClass) (h : WellFormed C) :
     (∀ n, invokable C n = true ↔ n ∈ advertised C)
     ∧ (∀ n, ¬ invokable C n = true → effects C n = [] ∧ reply C n = .unknownRpc) :=
-  ⟨fun n => (dispatch_sound_partial C [] h n (by simp)).1,
-   fun n => (dispatch_sound_partial C [] h n (by simp)).2.2⟩
+  ⟨fun n => (propertyAt_of_wfExcept C [] h n (by simp)).1, fun n => rejected_runs_nothing C n⟩
 
 /-- only members explicitly declared with `@rpc_method` in their class body are invokable, and never through an
 instance attribute -/
 theorem invokable_only_declared (C : RpcClass) (h : WellFormed C) (n : Name) (hi : invokable C n = true) :
     declared C n = true ∧ lookup C.inst n = none :=
-  (dispatch_sound_partial C [] h n (by simp)).2.1 hi
+  (propertyAt_of_wfExcept C [] h n (by simp)).2.1 hi
 
-/-- `WellFormed` is not stronger than needed: it is *equivalent* to the property at every name (plus: no
-`__getattr__` hook, no protected name advertised).  So a failing `decide` for a generated class is a failure of the
-property in the model, with `badNames` as witnesses. -/
+/-- `WellFormed` is not stronger than needed: it is *equivalent* to the property at every name (plus: no protected
+name advertised).  So a failing `decide` for a generated class is a failure of the property in the model, with
+`badNames` as witnesses. -/
 theorem wellFormed_iff (C : RpcClass) :
-    WellFormed C ↔ (C.getattrHook = false ∧ (∀ n, PropertyAt C n) ∧ ∀ n ∈ protectedNames, n ∉ advertised C) := by
+    WellFormed C ↔ ((∀ n, PropertyAt C n) ∧ ∀ n ∈ protectedNames, n ∉ advertised C) := by
   constructor
   · intro h
-    refine ⟨hook_of_wfExcept C [] h, fun n => dispatch_sound_partial C [] h n (by simp), ?_⟩
+    refine ⟨fun n => propertyAt_of_wfExcept C [] h n (by simp), ?_⟩
     intro n hn
     rw [mem_advertised_iff]
     unfold WellFormed WellFormedExcept wfExceptB at h
     simp only [Bool.and_eq_true, List.all_eq_true, Bool.not_eq_true'] at h
     rw [h.2 n hn]
     exact Bool.false_ne_true
-  · rintro ⟨hh, hp, hprot⟩
+  · rintro ⟨hp, hprot⟩
     unfold WellFormed WellFormedExcept wfExceptB
     simp only [Bool.and_eq_true, List.all_eq_true, Bool.not_eq_true', Bool.or_eq_true]
-    refine ⟨⟨hh, fun n _ => Or.inr (nameOk_of_propertyAt C n (hp n))⟩, ?_⟩
+    refine ⟨fun n _ => Or.inr (nameOk_of_propertyAt C n (hp n)), ?_⟩
     intro n hn
     have := hprot n hn
     rw [mem_advertised_iff] at this
@@ -101,7 +120,7 @@ theorem protected_names_never_advertised (C : RpcClass) (ms : List Name) (h : co
 
 /-- a well-formed class can be constructed, and its descriptor lists exactly `advertised` -/
 theorem construct_ok_of_wf (C : RpcClass) (h : WellFormed C) : construct C = .ok (advertised C) := by
-  have hp := ((wellFormed_iff C).mp h).2.2
+  have hp := ((wellFormed_iff C).mp h).2
   unfold construct
   rw [if_neg]
   intro hany
@@ -112,9 +131,26 @@ theorem construct_ok_of_wf (C : RpcClass) (h : WellFormed C) : construct C = .ok
 /-- a request naming a lock-control name on a well-formed class is rejected and runs nothing -/
 theorem protected_names_rejected (C : RpcClass) (h : WellFormed C) (n : Name) (hn : n ∈ protectedNames) :
     invokable C n = false ∧ effects C n = [] ∧ reply C n = .unknownRpc := by
-  obtain ⟨_, hp, hprot⟩ := (wellFormed_iff C).mp h
+  obtain ⟨hp, hprot⟩ := (wellFormed_iff C).mp h
   have hni : ¬ invokable C n = true := fun e => hprot n hn ((hp n).1.mp e)
   refine ⟨?_, (hp n).2.2 hni⟩
+  cases hi : invokable C n
+  · rfl
+  · exact absurd hi hni
+
+/-- for *every* class whose object can be constructed: a request naming a lock-control name is rejected and runs
+nothing, unless an instance attribute of that name shadows the class member -/
+theorem protected_names_rejected_of_constructible (C : RpcClass) (ms : List Name) (hc : construct C = .ok ms)
+    (n : Name) (hn : n ∈ protectedNames) (hl : lookup C.inst n = none) :
+    invokable C n = false ∧ effects C n = [] ∧ reply C n = .unknownRpc := by
+  have hna : n ∉ advertised C := by
+    have h1 := protected_names_never_advertised C ms hc n hn
+    unfold construct at hc
+    split at hc
+    · cases hc
+    · injection hc with hc; subst hc; exact h1
+  have hni : ¬ invokable C n = true := fun e => hna ((invokable_iff_advertised_of_unshadowed C n hl).mp e)
+  refine ⟨?_, rejected_runs_nothing C n hni⟩
   cases hi : invokable C n
   · rfl
   · exact absurd hi hni
@@ -133,16 +169,16 @@ theorem protected_marked_not_constructible (C : RpcClass) (n : Name) (hn : n ∈
 shipped classes are discharged through this lemma: one linear pass over the member tables. -/
 theorem wfExcept_of_syn (C : RpcClass) (bad : List Name) (h : synWfB C bad = true) : WellFormedExcept C bad := by
   unfold synWfB at h
-  simp only [Bool.and_eq_true, Bool.not_eq_true'] at h
-  obtain ⟨⟨⟨⟨hh, hc⟩, ht⟩, hi⟩, hp⟩ := h
+  simp only [Bool.and_eq_true] at h
+  obtain ⟨⟨ht, hi⟩, hp⟩ := h
   unfold WellFormedExcept wfExceptB
-  simp only [Bool.and_eq_true, Bool.not_eq_true', List.all_eq_true, Bool.or_eq_true]
-  refine ⟨⟨hh, ?_⟩, ?_⟩
+  simp only [Bool.and_eq_true, List.all_eq_true, Bool.or_eq_true]
+  refine ⟨?_, ?_⟩
   · intro n _
     by_cases hb : n ∈ bad
     · exact Or.inl (List.contains_iff_mem.mpr hb)
     · right
-      apply nameOk_of_clean C n hh hc
+      apply nameOk_of_clean C n
       · intro k hr
         obtain ⟨t, ht', hm⟩ := mem_of_resolve_some C.mro n k hr
         rcases tableClean_mem bad t (tablesClean_mem bad C.mro ht t ht') n k hm with h1 | h1
@@ -194,14 +230,23 @@ example : invokable exC 1 = true ∧ invokable exC 2 = true ∧ invokable exC 4 
     ∧ invokable exC 8 = false ∧ invokable exC 7 = false ∧ invokable exC 99 = false := by decide
 example : construct exC = .ok [1, 2, 4] := by rfl
 
-/-- a property (name 9) and a marked classmethod (name 10) break it; the witnesses are computed -/
-def exBad : RpcClass := { mro := [[(9, .prop), (10, .classfn true true)], exBase] }
+/-- a property (name 9), a marked classmethod (name 10), a marked callable object (name 11): none of them is
+invokable, none runs code, none is advertised — the class is well-formed -/
+def exProps : RpcClass := { mro := [[(9, .prop), (10, .classfn true true), (11, .callableObj true), (12, .ndprop)], exBase] }
+example : WellFormed exProps := by decide
+example : invokable exProps 9 = false ∧ effects exProps 9 = [] ∧ reply exProps 9 = .unknownRpc := by decide
+example : invokable exProps 10 = false ∧ (10 : Name) ∉ advertised exProps := by decide
+
+/-- what still breaks it: a function that carries the marker without having been declared (`functools.wraps` of a
+marked method, name 13), and an instance attribute that shadows an advertised method (name 1); the witnesses are
+computed -/
+def exBad : RpcClass := { mro := [[(13, .func true false)], exBase], inst := [(1, false)] }
 example : ¬ WellFormed exBad := by decide
-example : badNames exBad = [9, 10] := by decide
-example : WellFormedExcept exBad [9, 10] := by decide
-example : synWfB exBad [9, 10] = true := by decide
-example : invokable exBad 9 = false ∧ effects exBad 9 = [.getterRan 9] ∧ reply exBad 9 = .getterDecides := by decide
-example : invokable exBad 10 = true ∧ (10 : Name) ∉ advertised exBad := by decide
+example : badNames exBad = [13, 1] := by decide
+example : WellFormedExcept exBad [13, 1] := by decide
+example : synWfB exBad [13, 1] = true := by decide
+example : invokable exBad 13 = true ∧ declared exBad 13 = false := by decide
+example : invokable exBad 1 = false ∧ (1 : Name) ∈ advertised exBad := by decide
 /-- a class that marks `lock` cannot be constructed -/
 example : construct { mro := [[(n_lock, .func true true)], exBase] } = .error .usage := by rfl
 
